@@ -445,7 +445,7 @@ def expr_reads(ci, e, repo):
     return out
 
 
-def derived_state(chk):
+def derived_state(chk, rule="C10.R6"):
     repo = chk.repo
     ci = repo.cls("QModuleMixin")
     mi = ci.mod
@@ -469,7 +469,7 @@ def derived_state(chk):
                 derived[attr] = f"value `{U(ef[3])[:50]}` reads self.{SRC}"
             elif SRC in ctrl and len({U(e[3]) for _, e in lst}) > 1:
                 derived[attr] = f"assigned under a condition on self.{SRC}"
-    chk.floor("C10.R6", len(derived), 1, f"attributes derived from {SRC} in __init__")
+    chk.floor(rule, len(derived), 1, f"attributes derived from {SRC} in __init__")
     for m in ci.node.body:
         if not isinstance(m, ast.FunctionDef) or m is init:
             continue
@@ -480,7 +480,7 @@ def derived_state(chk):
             if SRC in st:
                 for attr, why in derived.items():
                     ok = attr in st and st[attr][4] >= st[SRC][4]
-                    chk.require("C10.R6", f"{mi.rel}:{st[SRC][4]}", ok, f"{m.name} reassigns self.{SRC} and re-derives self.{attr} ({why})", f"QModuleMixin.{m.name}", f"stale {attr} after {SRC} reassigned",
+                    chk.require(rule, f"{mi.rel}:{st[SRC][4]}", ok, f"{m.name} reassigns self.{SRC} and re-derives self.{attr} ({why})", f"QModuleMixin.{m.name}", f"stale {attr} after {SRC} reassigned",
                                 "loading a state_dict saved with another weight qtype (e.g. unfrozen qint4 weights into a default-quantized model): the stale value is used by the next forward")
 
 
